@@ -136,7 +136,7 @@ pub fn preflight(case: &Arc<Case>, rt: &mut Rt) -> Result<(), String> {
                         pre.push(Op::Parse { prog: prog.clone() })
                     }
                 }
-                Op::OnThread { ops } => collect(ops, regs, pre),
+                Op::OnThread { ops } | Op::OnThreadExit { ops, .. } => collect(ops, regs, pre),
                 Op::WithManager { then, .. } => collect(then, regs, pre),
                 o if o.is_reg() => {
                     if regs {
